@@ -100,6 +100,12 @@ def run(ctx):
             z = [r for r in fr if r[0] in ('bytes_read', 'bytes_written')]
             if not good and any(op == '<=' and b == '0' for a, op, b in z) and any(op == '>=' and b == '0' for a, op, b in z):
                 good = True
+            if not good and not ev:
+                # the guard does not mention a transfer count at all; if it tests the classified result of a repo helper, this rule cannot see the evidence
+                hv = [v for v in walk(lp) if v.get('kind') == 'VarDecl' and kids(v) and any(y.get('kind') == 'CallExpr' and callee_decl(y, u) is not None and body_of(callee_decl(y, u)) is not None for y in walk(v))]
+                if any(v.get('name') and any(v['name'] in (r_[0] + r_[2]) for r_ in fr) for v in hv):
+                    ctx.undecided(R, '%s|retire#%d' % (lab, i), c, 'the descriptor is retired on the classified result of a helper call (%s): the end-of-stream evidence is inside the helper' % [v.get('name') for v in hv][:2])
+                    continue
             ctx.check(good, R, '%s|retire#%d' % (lab, i), c, 'retired on transfer evidence %s' % (ev[:2],),
                       'a descriptor is closed/removed inside the poll loop without end-of-stream evidence from the transfer (guard: %s): data still in the pipe (e.g. more than one block pending when POLLHUP is reported) is lost' % (sorted(tf)[:3] + fr[:3]))
         # flag definitions: should_close_stdin = (offset == size) or true on failed write
@@ -107,7 +113,8 @@ def run(ctx):
             sc = next((v for v in walk(lp) if v.get('kind') == 'VarDecl' and 'should_close' in (v.get('name') or '')), None)
             if sc is not None:
                 asg = [x for x in walk(lp) if x.get('kind') == 'BinaryOperator' and x.get('opcode') == '=' and (ref_decl(x['inner'][0]) or {}).get('id') == sc['id']]
-                oks = int_value(kids(sc)[-1]) == 0 and len(asg) == 2 and sorted(nf(a['inner'][1]) for a in asg) == sorted(['1', '(stdin_offset == stdin_size)'])
+                vals = [nf(a['inner'][1]) for a in asg]
+                oks = int_value(kids(sc)[-1]) in (0, 1) and all(v_ in ('1', '(stdin_offset == stdin_size)', '(stdin_size == stdin_offset)') for v_ in vals) and any('stdin_offset' in v_ for v_ in vals) and (int_value(kids(sc)[-1]) == 1 or '1' in vals)
                 ctx.check(oks, R, 'communicate|stdin-close-flag', sc, 'stdin is closed when the write failed or the payload is complete', 'stdin close flag is set from %s' % [nf(a['inner'][1]) for a in asg])
     # drain after the loop
     lp = poll_loops(rb)[0]
@@ -126,7 +133,10 @@ def run(ctx):
                 again = any(op == '<' and v == '0' for a, op, v in z) and any('EAGAIN' in t or 'errno' in t for t in [nf(n_) for n_, p_ in atoms(path_facts(b)) if p_])
                 okd = okd and (eof or again)
             okd = okd and len(brk) >= 2
-    ctx.check(okd, R, 'run_process|post-exit-drain', drain[0] if drain else runp, 'after the child is reaped every registered output descriptor is read until 0 / EAGAIN', 'run_process has no complete post-exit drain of its output descriptors: output written just before exit is lost')
+    if not drain and any(c.get('kind') == 'CallExpr' and call_name(c) == 'read' for s_ in after for c in walk_deep(s_, u)):
+        ctx.undecided(R, 'run_process|post-exit-drain', runp, 'the post-exit drain reads through a helper function: its loop shape is not the one this rule models')
+    else:
+      ctx.check(okd, R, 'run_process|post-exit-drain', drain[0] if drain else runp, 'after the child is reaped every registered output descriptor is read until 0 / EAGAIN', 'run_process has no complete post-exit drain of its output descriptors: output written just before exit is lost')
     lpc = poll_loops(cb)[0]
     afterc = [s for s in stmts_of(cb) if s.get('_off', 0) > lpc.get('_off', 0)]
     dr = [s for s in afterc if s.get('kind') == 'IfStmt' and any(x.get('kind') == 'ForStmt' and for_parts(x)[2] is None and any(c.get('kind') == 'CallExpr' and call_name(c) == 'read' for c in walk(x)) for x in walk(s))]
@@ -136,7 +146,7 @@ def run(ctx):
         okc = 'this.stdout_read_fd' in c_ and 'this.wait(1)' in c_
         brk = [b for b in walk(dr[0]) if b.get('kind') == 'BreakStmt']
         okc = okc and len(brk) == 1 and any('empty()' in t for t in truthy_facts(brk[0]))
-        rets = [r for r in walk(cb) if r.get('kind') == 'ReturnStmt']
+        rets = [r for r in walk(cb) if r.get('kind') == 'ReturnStmt' and enclosing(r, ('LambdaExpr',)) is None]
         okc = okc and all(r['_off'] > dr[0]['_off'] for r in rets)
     ctx.check(okc, R, 'communicate|post-exit-drain', dr[0] if dr else comm, 'after the child exited, stdout is read until empty before returning', 'communicate has no post-exit drain of stdout: output still in the pipe when the child exits is lost')
 
@@ -160,6 +170,13 @@ def run(ctx):
     child = next((x for x in walk(cbd) if x.get('kind') == 'IfStmt' and nf(if_parts(x)[0]) in ('(this.child_pid == 0)', '(0 == this.child_pid)')), None)
     okch = child is not None and not falls_through(if_parts(child)[1]) or (child is not None and any(c.get('kind') == 'CallExpr' and call_name(c) == '_exit' for c in walk(if_parts(child)[1])))
     cc = sorted(nf(call_args(c)[0]) for c in walk(if_parts(child)[1]) if c.get('kind') == 'CallExpr' and call_name(c) == 'close') if child is not None else []
+    if child is not None and not okch:
+        # the branch may end in a [[noreturn]] helper that execs
+        last_ = [strip(s_) for s_ in stmts_of(if_parts(child)[1])][-1:] if stmts_of(if_parts(child)[1]) else []
+        if last_ and last_[0].get('kind') == 'CallExpr':
+            d_ = callee_decl(last_[0], u)
+            if d_ is not None and body_of(d_) is not None and not falls_through(body_of(d_)) or (d_ is not None and body_of(d_) is not None and any(c.get('kind') == 'CallExpr' and call_name(c) == '_exit' for c in walk(body_of(d_)))):
+                okch = True
     ctx.check(okch and cc == ['this.stderr_read_fd', 'this.stdin_write_fd', 'this.stdout_read_fd'], R, 'ctor|child-closes-parent-ends', child or ctor, 'the child closes the parent-side ends and never returns', 'child branch closes %s' % cc)
     # run_process closes what is still registered
     for mp in ('read_fd_to_buffer', 'write_fd_to_buffer'):
@@ -180,10 +197,19 @@ def run(ctx):
     R = 'C15-R5'
     db = body_of(dtor)
     di = [x for x in walk(db) if x.get('kind') == 'IfStmt']
-    okd = len(di) == 1 and nf(if_parts(di[0])[0]) in ('((0 <= this.child_pid) && (-1 == this.wait(1)))', '((this.child_pid >= 0) && (this.wait(1) == -1))', '((0 <= this.child_pid) && (this.wait(1) == -1))')
+    # a kill followed by a blocking wait, both executed exactly when a child exists and a non-blocking
+    # wait reported it still running (as nested/early-return guards or one condition)
+    kills = [c for c in walk(db) if c.get('kind') == 'CXXMemberCallExpr' and call_name(c) == 'kill' and is_this(member_call_object(c) or {'kind': 'CXXThisExpr'})]
+    waits = [c for c in walk(db) if c.get('kind') == 'CXXMemberCallExpr' and call_name(c) == 'wait' and not [a for a in call_args(c) if a.get('kind') != 'CXXDefaultArgExpr']]
+    okd = len(kills) == 1 and len(waits) == 1 and kills[0]['_off'] < waits[0]['_off']
     if okd:
-        seq = [nf(s) for s in stmts_of(if_parts(di[0])[1])]
-        okd = seq == ['this.kill(9)', 'this.wait()'] or (len(seq) == 2 and seq[0].startswith('this.kill(') and seq[1].startswith('this.wait('))
+        fr = facts_rel(kills[0])
+        has_child = any((a == 'this.child_pid' and op == '>=' and b == '0') or (a == 'this.child_pid' and op == '>' and b == '-1') for a, op, b in fr)
+        running = any((a == 'this.wait(1)' and op == '==' and b == '-1') or (b == 'this.wait(1)' and op == '==' and a == '-1') for a, op, b in fr)
+        ks_, ws_ = containing_statement(kills[0]), containing_statement(waits[0])
+        same_guard = ks_ is not None and ws_ is not None and ks_.get('_p') is ws_.get('_p') and ks_.get('_p') is not None and \
+            [x for x in kids(ks_['_p'])].index(ws_) == [x for x in kids(ks_['_p'])].index(ks_) + 1
+        okd = has_child and running and same_guard
     ctx.check(okd, R, 'destructor|reaps', dtor, 'a still-running child is killed and then waited for', 'the destructor does not kill-then-wait a running child (zombie / orphan)')
     wb = body_of(wait)
     first = stmts_of(wb)[0] if stmts_of(wb) else {}
